@@ -25,7 +25,8 @@ EXTENDS EduceSyntax
 \* methods of the harness compute.  The custom methods are deliberately
 \* *different* from the own impls and asymmetric, so that own/method
 \* mix-ups and swapped arguments change results.
-OwnEq(x, y)    == x = y
+\* (the own == is that of a float: the value NaN equals nothing, itself included)
+OwnEq(x, y)    == x = y /\ x # NaN
 MethodEq(x, y) == ((x + 1) % 3) = y
 
 FieldEq(via, x, y) == IF via = Method THEN MethodEq(x, y) ELSE OwnEq(x, y)
@@ -89,11 +90,12 @@ ImplEqStep(c, r) ==
 \* A `true` result needs the same variant and an "equal" call for every
 \* compared field; a `false` result needs different variants or one "unequal"
 \* call.  Order of calls, repetition and short-circuiting are free.
-EqCallOK(c, a, b, k) ==
+\* (rs: the side the right operand was built as -- "b", or "a" when a value is compared with itself)
+EqCallOKS(c, a, b, k, rs) ==
   /\ a.v = b.v
   /\ CallLF(k) = CallRF(k)
   /\ CallLF(k) \in EqCompared(c, a.v)
-  /\ CallLS(k) = "a" /\ CallRS(k) = "b"
+  /\ CallLS(k) = "a" /\ CallRS(k) = rs
   /\ CallLV(k) = a.f[CallLF(k)] /\ CallRV(k) = b.f[CallRF(k)]
   /\ CallVia(k) = EqVia(c, a.v, CallLF(k))
   /\ CallFn(k) \in {"eq", "ne"}
@@ -104,8 +106,9 @@ EqCallOK(c, a, b, k) ==
 \* does call k say "field equal"?
 EqCallSaysEqual(k) == IF CallFn(k) = "eq" THEN CallRet(k) ELSE ~CallRet(k)
 
-PropEq(c, a, b, calls, ret) ==
-  /\ \A j \in DOMAIN calls : EqCallOK(c, a, b, calls[j])
+EqCallOK(c, a, b, k) == EqCallOKS(c, a, b, k, "b")
+PropEqS(c, a, b, calls, ret, rs) ==
+  /\ \A j \in DOMAIN calls : EqCallOKS(c, a, b, calls[j], rs)
   /\ IF ret
      THEN /\ a.v = b.v
           /\ \A i \in EqCompared(c, a.v) :
@@ -115,7 +118,12 @@ PropEq(c, a, b, calls, ret) ==
 
 \* `a != b` must be the negation of `a == b`: an observed `ne` call is judged
 \* as an `eq` call with the negated result.
+PropEq(c, a, b, calls, ret) == PropEqS(c, a, b, calls, ret, "b")
 PropNe(c, a, b, calls, ret) == PropEq(c, a, b, calls, ~ret)
+\* one and the same object on both sides: judged exactly like two equal-looking values -- the answer must come from the
+\* fields (a field whose own == is not reflexive makes `x == x` false), never from the identity of the operands
+PropEqSame(c, a, calls, ret) == PropEqS(c, a, a, calls, ret, "a")
+PropNeSame(c, a, calls, ret) == PropEqS(c, a, a, calls, ~ret, "a")
 
 
 \* ======================================================================
@@ -209,11 +217,11 @@ ImplCmpStep(c, r) ==
 \* decisive one a logged call with the result; or all compared fields have an
 \* Equal call and the result is Equal.  Extra calls are tolerated.  Operands of
 \* different variants: the discriminant order, and no field calls at all.
-CmpCallOK(c, op, a, b, k) ==
+CmpCallOKS(c, op, a, b, k, rs) ==
   /\ a.v = b.v
   /\ CallLF(k) = CallRF(k)
   /\ CallLF(k) \in OrdCompared(c, a.v)
-  /\ CallLS(k) = "a" /\ CallRS(k) = "b"
+  /\ CallLS(k) = "a" /\ CallRS(k) = rs
   /\ CallLV(k) = a.f[CallLF(k)] /\ CallRV(k) = b.f[CallRF(k)]
   /\ CallVia(k) = OrdVia(c, a.v, CallLF(k))
   /\ CallFn(k) \in {"cmp", "partial_cmp"}
@@ -231,12 +239,16 @@ Justified(c, a, calls, ret) ==
             /\ HasCall(calls, order[p], ret)
             /\ \A q \in 1..(p - 1) : HasCall(calls, order[q], "Equal")
 
-PropCmp(c, op, a, b, calls, ret) ==
+CmpCallOK(c, op, a, b, k) == CmpCallOKS(c, op, a, b, k, "b")
+PropCmpS(c, op, a, b, calls, ret, rs) ==
   IF a.v # b.v
   THEN calls = <<>> /\ ret = IntCmp(Disc(c, a.v), Disc(c, b.v))
-  ELSE /\ \A j \in DOMAIN calls : CmpCallOK(c, op, a, b, calls[j])
+  ELSE /\ \A j \in DOMAIN calls : CmpCallOKS(c, op, a, b, calls[j], rs)
        /\ Justified(c, a, calls, ret)
        /\ (op = "cmp" \/ HasTrait(c, "Ord")) => ret # "None"
+PropCmp(c, op, a, b, calls, ret) == PropCmpS(c, op, a, b, calls, ret, "b")
+\* a value compared with itself (same object): as for two equal-looking values
+PropCmpSame(c, op, a, calls, ret) == PropCmpS(c, op, a, a, calls, ret, "a")
 
 
 \* ======================================================================
